@@ -103,6 +103,8 @@ class Canon:
             return ["res", self.uid(d["uid"]), self.uid(d["run_start"])]
         if name == "datum":
             return ["datum", self.uid(d["datum_id"]), self.uid(d["resource"])]
+        if name == "event_page":
+            return ["epage", "-", self.uid(d["descriptor"]), list(d["seq_num"])]
         return ["other", name]
 
     def call(self, c):
@@ -240,12 +242,18 @@ async def _do(RE, b, devs, op, Msg):
         await b.kickoff(Msg("kickoff", devs[op[1]]))
     elif k == "collect":
         objs = []
-        for o, idx, assets in op[1]:
+        for ent in op[1]:
+            o, idx, assets = ent[:3]
             d = devs[o]
             d.next_index = idx
             d.next_assets = _assets(assets)
+            if len(ent) > 3:       # events an EventCollectable / EventPageCollectable flyer hands over: [[key, value], ...] each
+                d.next_events = [{"data": {fd.key_name(k): v for k, v in ev}, "timestamps": {fd.key_name(k): 0.5 for k, _ in ev},
+                                  "time": 1.5} for ev in ent[3]]
             objs.append(d)
         kw = {}
+        if len(op) > 4 and op[4] is False:
+            kw["return_payload"] = False
         if op[2] is not None:
             kw["name"] = fd.stream_name(op[2])
         if op[3]:
